@@ -15,7 +15,8 @@ RULE = ("Cases = (row-length vector, ufunc, first-operand dtype, second operand 
         "the column expanded by np.repeat and the scalar passed unchanged: values, result dtype and numpy's own "
         "refusals (TypeError / OverflowError / ValueError) must match; row lengths equal the operand's; operands "
         "unmodified.  Non-trivial = the shape has an empty row or no rows, or the dtypes differ, or the operand is a "
-        "column vector or on the left.")
+        "column vector or on the left."
+        "  Element types incl. uint16/32/64; ragged operands whose cells coincide with the other operand's or differ by one; float columns of zeros of both signs; the different-lengths refusal with operands from all 12 source kinds.")
 ASSUMPTIONS = ["float16, complex, out=/where= kwargs and ufuncs with nout > 1 are not explored",
                "float power results are compared within 4 ulp (SIMD and scalar loops may round differently); "
                "everything else exactly (NaN == NaN)"]
@@ -156,7 +157,7 @@ def body(case, ctx):
             raise Violation("ufunc:row-lengths", expected=lens, got=glens, **info)
         if not close_enough(gflat, expv, name):
             raise Violation("ufunc:values", expected=jsonable(split(expv, lens)), got=jsonable(split(gflat, lens)), **info)
-        if expv.size and gflat.dtype != expv.dtype:
+        if (expv.size or n) and gflat.dtype != expv.dtype:
             raise Violation("ufunc:dtype", expected=str(expv.dtype), got=str(gflat.dtype), **info)
         rows_it = lib(lambda: [np.asarray(x) for x in res])
         if not rows_it.ok or not all(close_enough(g, e, name) for g, e in zip(rows_it.value, split(expv, lens))) or len(rows_it.value) != n:
